@@ -111,7 +111,10 @@ class NPMixin:
                           z3.ForAll([j], z3.Implies(z3.And(j >= 0, j < ix.shape[0]),
                                                     z3.And(ix[j] >= 0, ix[j] < b.shape[0]))))
                 if b.ndim == 1:
-                    return self.new_obj(st, self.lam(lambda i: b[ix[i]], ix.shape, b.kind))
+                    out_ = self.lam(lambda i: b[ix[i]], ix.shape, b.kind)
+                    if b.meta.get('distinct') and ix.meta.get('distinct'):
+                        out_.meta = {'distinct': True}       # distinct values read at distinct positions are distinct
+                    return self.new_obj(st, out_)
                 return self.new_obj(st, self.lam(lambda i, *r: b[(ix[i],) + tuple(r)], ix.shape + b.shape[1:], b.kind))
             raise Unsupported('index array kind %s' % ix.kind)
         if isinstance(ix, NoneV):
@@ -181,6 +184,12 @@ class NPMixin:
         return self.new_obj(st, self.lam(f, tuple(outshape), b.kind))
 
     def slice_read(self, b, sl, st, node):
+        if sl.step is not None and sl.lo is None and sl.hi is None and b.ndim == 1:
+            stp = z3.simplify(to_z3(sl.step))
+            if z3.is_int_value(stp) and stp.as_long() == -1:
+                a = self.lam(lambda i: b[b.shape[0] - 1 - i], b.shape, b.kind)       # x[::-1]
+                a.meta = {k: v for k, v in b.meta.items() if k == 'list'}
+                return self.new_obj(st, a)
         if sl.step is not None:
             step = to_z3(sl.step)
             if not (z3.is_int_value(step) and step.as_long() == 1):
@@ -226,7 +235,11 @@ class NPMixin:
             raise Unsupported('store into %r' % (arr,))
         ix = self.deref(st, idx)
         if isinstance(ix, Tup) and len(ix.items) == 1 and arr.ndim == 1:
-            idx = ix.items[0]
+            wm_ = getattr(ix, 'where_mask', None)
+            if wm_ is not None and wm_.ndim == 1 and wm_.kind == 'bool' and not isinstance(self.deref(st, v), (Arr, MaskedSel)):
+                idx = self.new_obj(st, wm_)          # a[np.where(mask)] = v  is  a[mask] = v
+            else:
+                idx = ix.items[0]
             ix = self.deref(st, idx)
         vv = self.deref(st, v)
         if isinstance(ix, Arr) and ix.kind == 'bool' and ix.ndim > 1:
@@ -577,6 +590,15 @@ class NPMixin:
             shape, acc, obl = self.bshape(A, B)
             for o in obl:
                 self.emit(self.site('shape', node), st, o)
+            kinds_ = [x.kind if isinstance(x, Arr) else ('bool' if (isinstance(x, bool) or (is_sym(x) and z3.is_bool(x))) else 'int') for x in (A, B)]
+            if 'int' in kinds_ and t is ast.BitAnd:
+                # integer & boolean (True = 1): the lowest bit of the integer where the boolean holds; integer & integer is not modelled
+                if kinds_ == ['int', 'int']:
+                    raise Unsupported('bitwise and of two integer arrays')
+                iv, bv = (A, B) if kinds_[0] == 'int' else (B, A)
+                gi = lambda ix: acc(iv, ix) if isinstance(iv, Arr) else to_z3(iv)
+                gb = lambda ix: _z(acc(bv, ix)) if isinstance(bv, Arr) else _z(to_bool(bv))
+                return self.new_obj(st, self.lam(lambda *ix: z3.If(gb(ix), gi(ix) % 2, z3.IntVal(0)), shape, 'int'))
             f = z3.And if t is ast.BitAnd else z3.Or
             return self.new_obj(st, self.lam(lambda *ix: f(_z(acc(A, ix)), _z(acc(B, ix))), shape, 'bool'))
         shape, acc, obl = self.bshape(A, B)
@@ -601,6 +623,8 @@ class NPMixin:
         def f(*ix):
             x, y = g(A, ix), g(B, ix)
             if t in _OPS:
+                if t is ast.Mult:
+                    x, y = z3.simplify(x), z3.simplify(y)      # constant cells (np.ones(n)[i]) are numerals
                 if t is ast.Mult and not (z3.is_rational_value(x) or z3.is_int_value(x) or z3.is_rational_value(y) or z3.is_int_value(y)):
                     return self.nl_mul(x, y)
                 return _OPS[t](x, y)
